@@ -394,7 +394,7 @@ class RSocketBase(RSocket, RSocketInternal):
             next_fragment = next_frame_source.get_next_fragment(transport.requires_length_header())
 
             if next_fragment.flags_follows:
-                self._send_queue.put_nowait(self._send_queue.get_nowait())  # cycle to next frame source in queue
+                self._cycle_stream_to_queue_end(next_frame_source.stream_id)  # cycle to next frame source in queue
             else:
                 next_frame_source.get_next_fragment(
                     transport.requires_length_header())  # workaround to clean-up generator.
@@ -405,6 +405,23 @@ class RSocketBase(RSocket, RSocketInternal):
         else:
             self._send_queue.get_nowait()
             yield next_frame_source
+
+    def _cycle_stream_to_queue_end(self, stream_id: int):
+        # Frames of the stream being fragmented must stay behind the remaining fragments,
+        # in their original order. Only frames of other streams may be interleaved.
+        same_stream_items = []
+        other_items = []
+
+        while not self._send_queue.empty():
+            item = self._send_queue.get_nowait()
+
+            if item.stream_id == stream_id:
+                same_stream_items.append(item)
+            else:
+                other_items.append(item)
+
+        for item in other_items + same_stream_items:
+            self._send_queue.put_nowait(item)
 
     async def _sender(self):
         try:
